@@ -66,7 +66,7 @@ def draw_ctx_factory(cap_mass):
 
 
 def run_molecule(text, sched_kwargs, props=("C04", "C05", "C06", "C07", "C08"), embed="stub", embed_fault_at=None,
-                 forced_draws=None, cap_mass=None, wall=60, expect_complete=True, ast=None, keep_world=True, sched_obj=None, draw_ctx_fn=None):
+                 forced_draws=None, cap_mass=None, wall=60, expect_complete=True, ast=None, keep_world=True, sched_obj=None, draw_ctx_fn=None, reuse_obj=None):
     """Generate one molecule from `text` under the simulator.  Returns RunOutcome."""
     g = boot.load()
     out = RunOutcome()
@@ -89,7 +89,8 @@ def run_molecule(text, sched_kwargs, props=("C04", "C05", "C06", "C07", "C08"), 
         with world:
             out.phase = "parse"
             try:
-                mol = g.Molecule(text)
+                # `reuse_obj`: generate again from an object parsed earlier (repeated generation from one parsed molecule)
+                mol = reuse_obj if reuse_obj is not None else g.Molecule(text)
             except SimAbort:
                 raise
             except Exception as exc:
